@@ -41,15 +41,18 @@
        empty case, no droppable forward form) and all_src_b is a theorem for parsed accepted
        programs (C01_all_src_parsed: proofs/SrcAll.v — choice types are non-empty and the checker
        demands a branch per label; the parser never builds a droppable forward).
-   NOT proved: Topo along the runs of the NON-POLARIZED mode (premise of C01_safety_np_parsed_partial;
-   tested by proofs/TopoCheck.v on every suite run). *)
+     * C01_safety_all_modes_parsed : the same in ALL THREE execution modes (`safety_statement`): Topo along
+       the runs of the non-polarized mode is proofs/TopoNP.v (a step of that mode is a synchronous
+       step, a drop that spawns nothing, or the control message of a forward).
+   Every statement above is closed under the global context; nothing is left as a premise for parsed,
+   accepted, closed programs. *)
 From stdpp Require Import gmap strings.
 Require Import Grits.Base Grits.ModeDefs Grits.Modes Grits.STypes Grits.Forms Grits.Subst Grits.TcDeps Grits.Expand
                Grits.Tc Grits.TcTop Grits.Runtime Grits.spec.RtTyping Grits.spec.Topo
                Grits.proofs.StepErrors Grits.proofs.RtSubst Grits.proofs.RtEffect Grits.proofs.RtSafety
                Grits.proofs.RtInit Grits.proofs.RtTheorems Grits.proofs.RtStaticCheck
                Grits.spec.SynOk Grits.proofs.RtTcSyn Grits.proofs.RtTcBisim Grits.proofs.ParseRaw Grits.proofs.RtSafetyNP Grits.proofs.RtTheoremsTc
-               Grits.proofs.InitAccept Grits.proofs.DeterminismAll Grits.proofs.SrcAll Grits.proofs.RtTheoremsFinal.
+               Grits.proofs.InitAccept Grits.proofs.DeterminismAll Grits.proofs.SrcAll Grits.proofs.TopoNP Grits.proofs.RtTheoremsFinal.
 
 Theorem C01_step_error_inv : forall md D F c ch who e,
   step md D F c ch = SError who e <-> step_err md D F c ch who e.
@@ -212,6 +215,17 @@ Theorem C01_safety_parsed : forall txt p p' md,
     exec_run fuel pick md (p_types p') (p_funs p') (init_config p') <> RError c who e.
 Proof. exact safety_parsed. Qed.
 
+Theorem C01_topo_runs_np_parsed : forall txt p p',
+  parse_string txt = POk p -> typecheck p = Accept p' -> in_fragment p' ->
+  forall c, reachable (p_types p') (p_funs p') NP (init_config p') c -> Topo c.
+Proof. exact topo_runs_np_parsed. Qed.
+
+Theorem C01_safety_all_modes_parsed : forall txt p p' md,
+  parse_string txt = POk p -> typecheck p = Accept p' -> in_fragment p' ->
+  forall fuel pick c who e,
+    exec_run fuel pick md (p_types p') (p_funs p') (init_config p') <> RError c who e.
+Proof. exact safety_all_modes_parsed. Qed.
+
 Theorem C01_reachable_typed_parsed : forall txt p p' md c,
   parse_string txt = POk p -> typecheck p = Accept p' -> in_fragment p' -> is_np md = false ->
   reachable (p_types p') (p_funs p') md (init_config p') c ->
@@ -282,6 +296,8 @@ Print Assumptions C01_accepted_nonempty_cases.
 Print Assumptions C01_all_src_parsed.
 Print Assumptions C01_topo_runs_parsed.
 Print Assumptions C01_safety_parsed.
+Print Assumptions C01_topo_runs_np_parsed.
+Print Assumptions C01_safety_all_modes_parsed.
 Print Assumptions C01_reachable_typed_parsed.
 Print Assumptions C01_syn_premises_sound.
 Print Assumptions C01_examples_syn_ok.
